@@ -144,6 +144,7 @@ func sprintfArgs(c *ssa.Call) string {
 func checkC11(p *load.Program, r *kit.Report) {
 	importRules(p, r, "C09", "a loaded repository holds less in memory than the original: ranges and heights are then served from the files, which must be read only where memory has no answer and at the record the writer put there", 4, nil, "LOOKUP-SHAPE")
 	importRules(p, r, "C09", "a loaded repository holds less in memory than the original: ranges and heights are then served from the files, which must be read only where memory has no answer and only up to the tip", 6, nil, "TIP-BOUND")
+	importRules(p, r, "C01", "load re-attaches every restored branch with Branch.Link: it must pick the parent (the first branch of the oldest-first list that knows the previous hash), or heights between two sibling forks resolve to the wrong branch after a restart", 1, nil, "LINK-FIRST")
 	r.NotDecided = "equality of the loaded repository with the saved one for a given history (a runtime relation over values); which side branches share a file; migration of real version-0 files. Decided are layout symmetry, key agreement, record-size constants, load-time labels, merge arithmetic and always-write facts that are necessary for the round trip."
 	r.Rule("CODEC-SYM", "encoder and decoder of each persisted structure emit/consume the same ordered list of wire items (kind, width, loop): Branch, HeaderData (+ 32-byte big-int), invalid list, branch index, main header files", 6)
 	r.Rule("KEY-AGREE", "every storage key written has a reader with the same key shape (format and argument kinds)", 4)
@@ -345,7 +346,16 @@ func checkC11(p *load.Program, r *kit.Report) {
 					}
 					return false, false
 				})
-				if keep == nil {
+				// every entry of the index is loaded: no path from the start of an iteration to the
+				// next one avoids LoadBranch except by returning an error
+				if hdr, body := loopBodyEntry(f, lb); hdr != nil && body != nil {
+					rr := kit.Reach(f, []kit.Pt{{B: body, I: 0}}, kit.Opts{StopAt: kit.InstrSet(lb)})
+					if rr.Has(hdr.Instrs[0]) {
+						badK = "an entry of the branch index can be skipped without loading its branch (" + rr.PathTo(hdr.Instrs[0], p.Pos) + "): a re-attached branch keeps its first header, which the consolidated main branch also holds, so `already loaded` tests drop live branches"
+					}
+				}
+				if badK != "" {
+				} else if keep == nil {
 					badK = "loaded branches are not collected"
 				} else if header, _ := loopBodyEntry(f, keep); header != nil {
 					var starts []kit.Pt
@@ -583,13 +593,15 @@ func checkC12(p *load.Program, r *kit.Report) {
 		func(o *kit.Obligation) bool {
 			return o.Rule == "MAIN-FILE-SHAPE" || strings.HasPrefix(o.Construct, "Save/order") || strings.HasPrefix(o.Construct, "Branch.Save")
 		}, "MAIN-FILE-SHAPE", "MERGE-SHAPE")
+	importRules(p, r, "C11", "Load must report at least the work of the last completed Save: every branch the index names is loaded and kept unless its tip is below the retained depth", 1,
+		func(o *kit.Obligation) bool { return strings.HasPrefix(o.Construct, "load/keeps-branches") }, "COVER-ALL")
 	importRules(p, r, "C01", "after Load the reported tip must be the heaviest of the branches that could be read", 1,
 		func(o *kit.Obligation) bool {
 			return strings.Contains(o.Construct, "Repository.load") || strings.Contains(o.Construct, "Repository.migrate")
 		}, "WRITERS")
 	r.NotDecided = "the property proper — enumeration of write prefixes and what Load reconstructs from each (crash points are runtime states); per-key atomicity is the property's own assumption. Decided are the ordering and tolerance facts without which some prefix is unloadable."
 	r.Rule("ORDER", "in saveBranches the index write happens after every branch file it names was saved (dominated by the loop exit; no Save reachable after the index write; a Save error returns before the index is written)", 2)
-	r.Rule("WRITERS", "the only storage removal in the headers package is saveMainBranch's removal of the file after the last main-chain file; no branch file is removed; clean never writes the branch index", 2)
+	r.Rule("WRITERS", "the only storage removal in the headers package is saveMainBranch's removal of the file after the last main-chain file; no branch file is removed; clean never writes the branch index; in saveMainBranch nothing is written after the removal and the removal is not repeated", 3)
 	r.Rule("TOLERATE", "load skips a branch that cannot be linked (no error return on the Link failure edge) and re-selects the tip with Longest() from what it read; migrate ends its scan on an unreadable old-format file instead of failing", 3)
 
 	if f := fn(p, r, "ORDER", H, "Repository.saveBranches"); f != nil {
@@ -644,6 +656,24 @@ func checkC12(p *load.Program, r *kit.Report) {
 	}
 	if n == 0 {
 		r.OKTrivial("WRITERS", "remove-sites", "-", "no storage removal at all")
+	}
+	// the removal comes last: nothing is written after a header file was removed (removing the
+	// files first and re-writing them afterwards leaves, between the two, an image in which files
+	// that Load reads unconditionally are missing) and it is not repeated in a loop
+	if f := p.Func(H, "Repository.saveMainBranch"); f != nil {
+		bad := ""
+		for _, rm := range storageCalls(f, "Remove") {
+			after := kit.Reach(f, kit.After(rm), kit.Opts{})
+			for _, w := range storageCalls(f, "Write") {
+				if after.Has(w) {
+					bad = "a main-chain header file is written (" + posOf(p, w) + ") after header files were removed (" + posOf(p, rm) + "): a crash in between leaves an image without files that Load reads unconditionally (below the loaded best branch's lowest in-memory height)"
+				}
+			}
+			if after.Has(rm) {
+				bad = "main-chain header files are removed in a loop: more than the one file after the last written can disappear before anything replaces them"
+			}
+		}
+		r.Check(bad == "", "WRITERS", "saveMainBranch/remove-is-last", posOf(p, f.Blocks[0].Instrs[0]), "no Write is reachable after the Remove, which runs once", bad)
 	}
 	// clean never reaches the index write
 	if cl := fn(p, r, "WRITERS", H, "Repository.clean"); cl != nil {
